@@ -12,9 +12,13 @@ LEVEL_TEXT = ("TLC checks that the PlusCal mechanism model of AsyncLoop.h (one l
               "refuted.  The model is bound to the code: a transition cover of the model's state graph is replayed as forced schedules on the "
               "real AsyncLoop through the hook points (serialised threads), plus seeded random serialised schedules and free-running executions "
               "on all tasking backends; the recorded contract events of every execution are validated by TLC against AsyncLoopContract "
-              "(this decides), and the recorded steps against the mechanism model (detects model drift).")
+              "(this decides), and the recorded steps against the mechanism model (detects model drift).  A second model, AsyncLoopTSO, puts the "
+              "stop()/body handshake under x86-TSO store buffers: it holds with the header's seq_cst stores and is refuted when either store "
+              "is weakened; because the hook callbacks are fences, this part is bound to the code by rapid start/stop cycles on a build "
+              "WITHOUT hook points whose suspicious cycles (a body observed the token published after stop() returned) are validated by TLC.")
 LEVEL_NOTE = ("bounded scripts (<= 3 calls quick, <= 4 thorough, + destroy) in the exhaustive part; sequentially consistent atomics assumed by the "
-              "model (the header uses seq_cst std::atomic); bounded-time clause checked as: with the loop thread given every step it asks for, "
+              "mechanism model (the header uses seq_cst std::atomic; AsyncLoopTSO.tla shows the handshake needs them, and the hook-free stress "
+              "plan looks for weakened orderings on this x86 machine only - other architectures' reorderings are not observable here); bounded-time clause checked as: with the loop thread given every step it asks for, "
               "the body is entered (serialised modes) / within 2 s (free-running); trusted: TLC, the schedule controller, stamps taken under one mutex")
 TECHNIQUE = ("PlusCal mechanism model refines TLA+ contract (TLC, incl. liveness and negative controls); TLC-derived schedules forced on the real "
              "code through guarded hook points; TLC trace validation of recorded contract events and steps")
@@ -275,6 +279,20 @@ def run(chk, replay=None):
             raise InfraError("negative control %s was not refuted by TLC: the model's properties are vacuous" % cfg)
         chk.add_model("AsyncLoop/" + cfg, r, what + " -> refuted (%s)" % r.violated)
 
+    # 1b. the handshake under x86-TSO store buffers: holds with seq_cst stores on both sides, refuted if either side's store may
+    #     linger in a store buffer (release / relaxed) or without the re-check
+    for cfg, holds, what in (("AsyncLoopTSO_sc.cfg", True, "TSO store buffers, seq_cst stores on both sides: NoBodyAfterStop, StopReturns"),
+                             ("AsyncLoopTSO_neg_loop.cfg", False, "negative control: release store of insideLoopBody in the loop thread"),
+                             ("AsyncLoopTSO_neg_stop.cfg", False, "negative control: release store of shouldBeRunning in stop()"),
+                             ("AsyncLoopTSO_neg_norecheck.cfg", False, "negative control: no re-check (TSO model)")):
+        r = tla.run_tlc(os.path.join(SPEC, "AsyncLoopTSO.tla"), os.path.join(SPEC, cfg), workers=2, timeout=300, deadlock=False)
+        if holds:
+            chk.require_model_ok("AsyncLoopTSO/" + cfg, r, what)
+        else:
+            if r.ok:
+                raise InfraError("negative control %s was not refuted by TLC" % cfg)
+            chk.add_model("AsyncLoopTSO/" + cfg, r, what + " -> refuted (%s)" % r.violated)
+
     # 2. spec -> code: forced schedules covering every transition of the model
     exe = build.build("drv_asyncloop")
     total_edges = 0
@@ -322,14 +340,88 @@ def run(chk, replay=None):
         chk.log("free-running %s: %d executions, contract %d accepted / %d rejected" % (backend, nfree_run, acc, nrej))
         chk.cov["evaluations"] += nfree_run
         chk.cov["distinct_nontrivial"] += len({json.dumps([e["method"], e["script"], e["seed"]]) for e in execs})
+    # 5. free-running stress on a build WITHOUT hook points (their callbacks are fences: the instrumented build cannot show a
+    #    store-buffer reordering, see AsyncLoopTSO.tla)
+    run_stress(chk, quick)
     chk.cov["rule"] = ("executions of the real AsyncLoop: (a) one forced schedule per path of a transition cover of TLC's state graph of the mechanism model, "
-                       "(b) seeded random serialised schedules over random scripts, (c) free-running runs with seeded delays at the hook points on 4 backends; "
+                       "(b) seeded random serialised schedules over random scripts, (c) free-running runs with seeded delays at the hook points on 4 backends, (d) rapid start/stop cycles on a build without hook points "
+                       "(the driver writes the first cycles and every cycle in which a body observed the 'stop() has returned' token; TLC validates them); "
                        "distinct = distinct (method, script, schedule/seed); all are non-trivial (every script ends with the destructor)")
     chk.cov["model_transitions_covered_by_forced_schedules"] = total_edges
 
 
+def stress_once(exe, method, cycles, seed, tag):
+    d = os.path.join(WORK, "run", tag)
+    os.makedirs(d, exist_ok=True)
+    outp = os.path.join(d, "stress-%d.ndjson" % os.getpid())
+    try:
+        p = subprocess.run([exe, "--out", outp, "--cycles", str(cycles), "--seed", str(seed), "--method", method, "--record", "10"],
+                           stdout=subprocess.PIPE, stderr=subprocess.STDOUT, timeout=180)
+    except subprocess.TimeoutExpired:
+        return None, None
+    if p.returncode != 0 or not os.path.exists(outp):
+        raise InfraError("stress driver failed rc=%s: %s" % (p.returncode, p.stdout.decode(errors="replace")[-800:]))
+    rows = [json.loads(l) for l in open(outp) if l.strip()]
+    os.remove(outp)
+    summ = [r for r in rows if r.get("summary")]
+    if not summ:
+        raise InfraError("stress driver wrote no summary line")
+    return [r for r in rows if not r.get("summary")], summ[0]
+
+
+def run_stress(chk, quick, only=None):
+    plans = []
+    for backend, methods in (("TBB", ["THREAD", "TASK"]), ("Internal", ["TASK"])):
+        for m in methods:
+            for k in range(2 if quick else 10):
+                plans.append((backend, m, 20000 if quick else 100000, chk.seed * 100 + k))
+    if only:
+        plans = only
+    tot = {"cycles": 0, "bodies": 0, "prefilter_hits": 0, "runs": 0, "traces": 0}
+    exes = {}
+    for backend, m, cycles, seed in plans:
+        if backend not in exes:
+            exes[backend] = build.build("drv_asyncloop_stress", backend=backend, guard=False)
+        rows, summ = stress_once(exes[backend], m, cycles, seed, "c03-stress")
+        if rows is None:
+            chk.note("stress run (%s, %s, seed %d) did not finish within 180 s (a start()/stop() cycle hangs, or the machine is overloaded): not judged"
+                     % (backend, m, seed))
+            continue
+        tot["runs"] += 1
+        tot["cycles"] += summ["cycles"]
+        tot["bodies"] += summ["bodies"]
+        tot["prefilter_hits"] += summ["prefilter_hits"]
+        traces = [[{"e": "Begin", "method": m}] + [{"e": e} for e in r["events"]] for r in rows]
+        acc, rej, st = trace.validate(os.path.join(SPEC, "AsyncLoopContractTrace.tla"), os.path.join(SPEC, "AsyncLoopContractTrace.cfg"),
+                                      traces, "c03-stress", separator=False, max_rejections=6, reset_key="e")
+        tot["traces"] += len(traces)
+        chk.cov["traces_validated_against_impl"] += acc + len(rej)
+        chk.cov["contract_events_validated"] = chk.cov.get("contract_events_validated", 0) + st["events"]
+        chk.cov["evaluations"] += summ["cycles"]
+        chk.cov["distinct_nontrivial"] += 1
+        for rj in rej:
+            ev = traces[rj["exec"]]
+            cls = classify(ev, rj["line"])
+            chk.violation("%s/%s/%s/contract-rejected" % (SIG, m, cls),
+                          "%s launch, %s backend, build without hook points, cycle %d of %d rapid start()/stop() cycles (seed %d): contract event %d (%s) "
+                          "is not allowed by AsyncLoopContract; events: %s (%d cycles of this run were flagged by the driver's pre-filter)"
+                          % (m, backend, rows[rj["exec"]]["cycle"], summ["cycles"], seed, rj["line"], ev[rj["line"]]["e"],
+                             " ".join(x["e"] for x in ev), summ["prefilter_hits"]),
+                          {"kind": "asyncloop-stress", "backend": backend, "method": m, "cycles": cycles, "seed": seed,
+                           "contract_events": ev, "rejected_at": rj["line"]})
+    if tot["runs"] and tot["bodies"] < 3 * tot["cycles"]:
+        raise InfraError("vacuity guard: the stressed loop hardly ran (%d bodies in %d cycles)" % (tot["bodies"], tot["cycles"]))
+    chk.cov["stress_without_hooks"] = tot
+    chk.log("stress without hook points: %d runs, %d start/stop cycles, %d bodies, %d cycles flagged by the pre-filter, %d traces validated"
+            % (tot["runs"], tot["cycles"], tot["bodies"], tot["prefilter_hits"], tot["traces"]))
+
+
 def do_replay(chk, path):
     rep = json.load(open(path))
+    if rep.get("kind") == "asyncloop-stress":
+        # schedule-dependent: the same plan is run again, three seeds
+        run_stress(chk, True, only=[(rep["backend"], rep["method"], rep["cycles"], rep["seed"] + k) for k in range(3)])
+        return
     ex = rep["exec"]
     backend = rep.get("backend", "TBB")
     exe = build.build("drv_asyncloop", backend=backend)
